@@ -806,6 +806,10 @@ func (c *Ctx) c04OpenFindings() {
 }
 
 func runC04(c *Ctx) error {
+	// handwritten programs (shapes that once slipped through), run by the Go toolchain
+	if err := c.runCorpus("C04-programs"); err != nil {
+		return err
+	}
 	c.c04OpenFindings()
 	c.Rep.Rule = "num cut: (op, tagged operand pair) lines, 8-bit types exhaustive (256x256 per op), every ordered pair of kinds {untyped,uint8,int8,uint32,int32} on boundary+random values, float64 on special+random bit patterns, assign/convert/incdec/negate forms; oracle: script functions per type x syntactic position (var op var, x := a op b, a op= b, var op K, K op var, a op= K, ++/--, unary, typed var/const declaration, named constants without a type in every store position and as operands, parameter/variadic/field/element/result stores with parameters of every other type, conversions) against native Go arithmetic; distinct = distinct protocol line / (position,type,operands)"
 	if err := c.c04Corr(); err != nil {
